@@ -14,6 +14,7 @@ import (
 	"io"
 	"os"
 	"reflect"
+	"sort"
 	"strings"
 	"sync"
 	"time"
@@ -38,11 +39,12 @@ var pseudoSender = A(consensusSync.SyncProtocolPrecommitSender)
 
 // syncSide is what an epoch in sync mode has besides the usual sinks.
 type syncSide struct {
-	mu      sync.Mutex
-	fetches []uint64 // block numbers of the fetches the driver launched, in order of arrival at the stream
-	lq      *types.Height
-	store   *proposal.ProposalStore[H]
-	reached []string // messages carrying the pseudo-sender that reached the state machine
+	mu       sync.Mutex
+	fetches  []uint64 // block numbers of the fetches the driver launched, in order of arrival at the stream
+	compared int      // how many of them have been compared with the model (cmpFetches)
+	lq       *types.Height
+	store    *proposal.ProposalStore[H]
+	reached  []string // messages carrying the pseudo-sender that reached the state machine
 	// release ends the pending fetches when the process stops (they then end without an error: a fetch
 	// error put on the sync channel at shutdown could still be taken by the select loop, which would
 	// execute the previous actions once more — nondeterministic)
@@ -143,7 +145,7 @@ func blockBody(h, val uint64, seq int) p2psync.BlockBody {
 	hash := felt.FromUint64[felt.Felt](val)
 	sa := felt.Felt(addrOf(seq))
 	return p2psync.BlockBody{
-		Block: &core.Block{Header: &core.Header{Hash: &hash, Number: h, SequencerAddress: &sa}},
+		Block:       &core.Block{Header: &core.Header{Hash: &hash, Number: h, SequencerAddress: &sa}},
 		StateUpdate: &core.StateUpdate{StateDiff: &core.StateDiff{}},
 		Commitments: &core.BlockCommitments{},
 	}
@@ -279,10 +281,26 @@ func (rn *runner) cmpFetches(ep *epoch, what, in string, want *[]string, rp any)
 	for len(ep.side.fetched()) < len(*want) && time.Now().Before(dl) {
 		time.Sleep(200 * time.Microsecond)
 	}
-	if got := u64s(ep.side.fetched()); got != strings.Join(*want, " ") {
-		rn.res.Mismatch(lib.Mismatch{Sig: "sync-fetches-" + what, Input: rp, Model: strings.Join(*want, " "), Impl: in + " -> " + got})
-		*want = strings.Fields(got) // report each difference once
+	// Each fetch runs in a goroutine of its own (`d.wg.Go`): the fetches launched by ONE event reach the
+	// stream in either order. All fetches of earlier events have arrived before this event was handed over
+	// (this function waited for them), so the sequences are compared as: equal prefix (already compared),
+	// then the same multiset for this event.
+	got := strings.Fields(u64s(ep.side.fetched()))
+	n := ep.side.compared
+	if n > len(got) {
+		n = len(got)
 	}
+	if n > len(*want) {
+		n = len(*want)
+	}
+	g, w := append([]string{}, got[n:]...), append([]string{}, (*want)[n:]...)
+	sort.Strings(g)
+	sort.Strings(w)
+	if strings.Join(got[:n], " ") != strings.Join((*want)[:n], " ") || strings.Join(g, " ") != strings.Join(w, " ") {
+		rn.res.Mismatch(lib.Mismatch{Sig: "sync-fetches-" + what, Input: rp, Model: strings.Join(*want, " "), Impl: in + " -> " + strings.Join(got, " ")})
+	}
+	*want = got // continue from what really happened (report each difference once)
+	ep.side.compared = len(got)
 }
 
 func callOp(c smCall) string {
@@ -532,7 +550,7 @@ func syncGen(cfg *Cfg, r *lib.RNG, n int) func(ep *epoch, i int) (Input, bool) {
 		return v
 	}
 	fut := map[uint64]int{} // future height -> number of precommits sent
-	var target uint64      // the future height whose quorum is being completed
+	var target uint64       // the future height whose quorum is being completed
 	plan := map[uint64][]Input{}
 	seen := 0
 	var timers []Input
